@@ -433,8 +433,9 @@ fn handle_diff<T: Clone>(
 
                 // There is space for this new item.
                 res.push(VectorDiff::Insert {
-                    // Subtract 1 because `insert` adds a value compared to `previous_length`.
-                    index: (index - index_of_limit).saturating_sub(1),
+                    // If the view was full, its first item has just been popped: subtract 1
+                    // more. Otherwise the view starts at index 0 and `index` is unchanged.
+                    index: if is_full { index - index_of_limit - 1 } else { index },
                     value,
                 });
             } else {
